@@ -94,7 +94,9 @@ def make_slicer(vc, kind, variant, ctx):
             return vc.WidthOfIntervalSlicer(0.5, value_range=(10.0, None), min_n_points=20)   # no interval generated
         return vc.NumberOfIntervalsSlicer(3, value_range=(10.0, 12.0), min_n_points=20)
     if kind == "TooFew":   # 2 intervals of width 2 over (0.4, 2.8) / the default slicer on 300 rows
-        return (vc.WidthOfIntervalSlicer(2.0, min_n_points=20) if variant % 2 else
+        if variant % 3 == 2:
+            return None     # no "intervals" key at all: the model's own default slicer (10 intervals, >= 50 points each)
+        return (vc.WidthOfIntervalSlicer(2.0, min_n_points=20) if variant % 3 else
                 vc.NumberOfIntervalsSlicer(10))
     raise Machinery(f"unknown slicer kind {kind}")
 
@@ -108,7 +110,8 @@ def build(vc, case, carriers, variant):
         desc = {}
         sl = make_slicer(vc, dm["slicer"], variant + i, case["ctx"])
         slicers.append(sl)
-        desc["intervals"] = sl
+        if sl is not None:
+            desc["intervals"] = sl
         if dm["dist"] == "None":
             desc["distribution"] = None
         if dm["dist"] == "Ok":
@@ -144,7 +147,31 @@ def build(vc, case, carriers, variant):
         if dm["extra"]:
             desc["interval"] = 3
         descs.append(desc)
-    return vc.GlobalHierarchicalModel(descs), slicers
+    relax_sibling(vc)
+    model = vc.GlobalHierarchicalModel(descs)
+    # a dimension without "intervals" key uses the model's default slicer; stage 2 slices with that object
+    slicers = [model.interval_slicers[i] if sl is None else sl for i, sl in enumerate(slicers)]
+    return model, slicers
+
+
+_SIBLING = []
+
+
+def relax_sibling(vc):
+    """History class (round-6 seed C18-r6-1): some OTHER model, built earlier from a description without "intervals",
+    had its own default slicers relaxed by its owner - a legitimate operation on that model, which must not make a
+    later model accept data that leave too few intervals."""
+    if _SIBLING:
+        return
+    sib = vc.GlobalHierarchicalModel([
+        {"distribution": vc.WeibullDistribution()},
+        {"distribution": vc.LogNormalDistribution(), "conditional_on": 0,
+         "parameters": {"mu": vc.DependenceFunction(_const), "sigma": vc.DependenceFunction(_const)}}])
+    for sl in sib.interval_slicers:
+        if sl is not None:
+            sl.min_n_intervals = 1
+            sl.min_n_points = 1
+    _SIBLING.append(sib)
 
 
 def fit_args(case, data):
